@@ -30,6 +30,15 @@ impl TorsionalDihedral {
 }
 
 impl EnergyFunction for TorsionalDihedral {
+    #[cfg(optrs_verif)]
+    fn verif_describe(&self) -> crate::verif::TermDesc {
+        crate::verif::TermDesc {
+            kind: "torsion",
+            idxs: vec![self.i, self.j, self.k, self.l],
+            params: vec![self.phi0, self.n_phi, self.v_phi],
+        }
+    }
+
     fn involves_idxs(&self, idxs: Vec<usize>) -> bool {
         HashSet::from([self.i, self.j, self.k, self.l]) == HashSet::from_iter(idxs)
     }
@@ -1054,6 +1063,15 @@ impl InversionDihedral {
 }
 
 impl EnergyFunction for InversionDihedral {
+    #[cfg(optrs_verif)]
+    fn verif_describe(&self) -> crate::verif::TermDesc {
+        crate::verif::TermDesc {
+            kind: "inversion",
+            idxs: vec![self.c, self.i, self.j, self.k],
+            params: vec![self.c0, self.c1, self.c2, self.k_cijk],
+        }
+    }
+
     fn involves_idxs(&self, idxs: Vec<usize>) -> bool {
         idxs.len() == 4
             && (ImproperDihedral {
